@@ -344,7 +344,7 @@ func (e *issEnv) setupThread(i int, sp issThread) (*issRT, error) {
 		progCode = 1
 	case "manage":
 		progCode, flag = 2, 0
-		rt.eff = certmagic.VerifNormalizedName(sp.Name)
+		rt.eff = certmagic.VerifLocksNormalizedName(sp.Name)
 	case "clean":
 		progCode, flag = 3, b2i(sp.Interval)
 	case "ari":
@@ -385,7 +385,7 @@ func (e *issEnv) setupThread(i int, sp issThread) (*issRT, error) {
 		}
 		pk = vk
 	default:
-		rt.lockKey = certmagic.VerifIssueLockKey(rt.cfg, rt.eff)
+		rt.lockKey = certmagic.VerifLocksIssueLockKey(rt.cfg, rt.eff)
 		pk = e.names.id(certmagic.StorageKeys.Safe(rt.eff))
 		vk = e.names.id(certmagic.StorageKeys.Safe(rt.ascii))
 		idn = e.ids.id("dbl:" + strings.ToLower(rt.ascii))
@@ -425,7 +425,7 @@ func (e *issEnv) body(rt *issRT) (res int) {
 		}
 		err = certmagic.CleanStorage(rt.ctx, rt.storage, opts)
 	case "ari":
-		_, _, err = certmagic.VerifUpdateARI(rt.ctx, rt.cfg, rt.ariCert)
+		_, _, err = certmagic.VerifLocksUpdateARI(rt.ctx, rt.cfg, rt.ariCert)
 	}
 	if err != nil {
 		return 1
@@ -843,7 +843,7 @@ var issRetryOnce sync.Once
 // runIssCase executes one case on the real code.
 func runIssCase(cs issCase) (*issObs, error) {
 	issCAOnce.Do(func() { issCA = doubles.NewCA("issuance harness CA") })
-	issRetryOnce.Do(func() { certmagic.VerifSetRetryIntervals([]time.Duration{3 * time.Millisecond}) })
+	issRetryOnce.Do(func() { certmagic.VerifLocksSetRetryIntervals([]time.Duration{3 * time.Millisecond}) })
 	e := &issEnv{cs: cs, b: doubles.NewMemBackend(), ca: issCA, arrivals: make(chan *issArrival, 64), rnd: rand.New(rand.NewSource(cs.SchedSeed))}
 	e.b.HonourCtx = true
 	if err := e.seed(); err != nil {
@@ -855,7 +855,7 @@ func runIssCase(cs issCase) (*issObs, error) {
 			rt.cancel()
 			rt.cache.Stop()
 		}
-		if certmagic.VerifHeldLockCount() > 0 {
+		if certmagic.VerifLocksHeldCount() > 0 {
 			certmagic.CleanUpOwnLocks(context.Background(), zap.NewNop())
 		}
 	}()
@@ -949,7 +949,7 @@ func runIssCase(cs issCase) (*issObs, error) {
 		}
 	}
 	o.Held = len(e.b.HeldLocks())
-	o.Recorded = certmagic.VerifHeldLockCount()
+	o.Recorded = certmagic.VerifLocksHeldCount()
 	o.Names = e.names.l
 	o.LockNames = e.lockT.l
 	return o, nil
